@@ -10,6 +10,31 @@ NOTE = ("Trusted base: go/types + go/ssa (x/tools v0.29.0), CHA/VTA call-graph o
 
 # id -> (technique, level text, design ref)
 CLAIMS = {
+ "C02": ("value-provenance and guarded-by rules at both construction sites, must-close on refusing paths, constant evaluation of the server tls.Config, flag-sensitive path search for the SKI<->key binding",
+         "Structural necessary conditions of 'identity bound to the presented certificate': SKI taken from PeerCertificates[0] of this connection only, construction reachable only through the pass edges of sub-protocol / certificate / SKI-extraction / SKI-equality checks, refusing paths close the socket, server config requires client cert + TLS>=1.2 + the SHIP suites + a callback that succeeds only with a valid SKI, SkiFromCertificate succeeds only on the SHA-1(public key)==SubjectKeyId edge, generator uses the same derivation. TLS negotiation outcomes are not decided.",
+         "DESIGN.md §3 C02"),
+ "C07": ("def-use taint of document bytes into Replace/Trim/regexp sites, type rules on decode targets, structural rules on the recursive tree rewrite, idiom rules on the inverse scanner's string-literal handling",
+         "Structural necessary conditions of the lossless round trip: no context-free structural rewriting of document bytes, order/number-preserving decode with single-member maps, the rewrite recurses into every child of both container kinds and emits the rewritten child, the envelope splice never searches payload bytes, the inverse scanner skips string literals and escape pairs. Semantic equality over all documents and the []/{} ambiguity of the wire form are not decided.",
+         "DESIGN.md §3 C07"),
+ "C08": ("panic-obligation enumeration over VTA-reachable code with a dominating-guard prover; blocking-operation rule on the receive path; lock-order graph (interprocedural must-locksets + acquire summaries) cycle check",
+         "Every may-panic instruction (index, slice, optional JSON pointer deref, unchecked type assertion, integer division, explicit panic) in repo code reachable from peer-driven entries is discharged by a dominating guard or a reviewed exception; blocking channel operations on the receive path have timeout/escape arms; the lock-order graph is acyclic. Panics inside dependencies and resource exhaustion are not decided.",
+         "DESIGN.md §3 C08"),
+ "C16": ("writer/reader table extraction and agreement over resolved constants and field provenance; idiom rules for TXT splitting and rune-safe truncation; taint rule for the QR text",
+         "Structural necessary conditions of 'announced TXT = what a ship-go browser reads back': key/value tables of announce routine and resolver callback agree with each other and with SHIP 7.3.2, TXT items split at the first '=', descriptive fields cut at a rune boundary within 32 bytes, every interpolated QR value passes the ';' remover, a changed auto-accept flag is re-announced. Round-trip equality over all strings is not decided.",
+         "DESIGN.md §3 C16"),
+ "C17": ("guarded-by (path-sensitive for repeated conditions) on insert/delete sites, loop early-exit check, lockset + freshness rules for snapshots, flag-sensitive change=>report search, async-ordering rule",
+         "Structural necessary conditions of 'visible-services view tracks the mDNS history': validity filter dominates every modification, address hygiene and complete merge loops, snapshot copies under the mutex, every change dispatches a report. The per-change report goroutines (ordering) are a recorded known finding. History equivalence is not decided.",
+         "DESIGN.md §3 C17"),
+ "C18": ("async-ordering rule on notification call sites, value-provenance rule (notified = stored), exhaustive constant evaluation of the state mapping function",
+         "Which notification arrives last is a scheduling question; decided: notifications are not issued from per-event goroutines (the one existing site is a recorded known finding), the notified detail is the stored object, query and update share one total mapping whose four stable outcomes are distinct (evaluated for all 40 states).",
+         "DESIGN.md §3 C18"),
+ "C19": ("provenance + lockset + dominance rules on the avahi reconnect path, who-may-write for the manual-shutdown flag, must-pass bookkeeping rules, hand-over lock rule",
+         "Structural necessary conditions of 'reconnect without stale or lost announcements': re-announce reads the stored data under the mutex after the restart, the reconnect goroutine cannot clear the manual-shutdown flag and re-checks it in the restart's critical section, Announce/Unannounce/Shutdown bookkeeping on all paths, single listener, the Shutdown hand-over cannot deadlock on the provider mutex. Fault sequences as such are not decided.",
+         "DESIGN.md §3 C19"),
+ "C20": ("Eraser-style static lockset analysis (interprocedural must-locksets, read/write lock modes) over all fields and map contents of the eight shared structs; snapshot deep-copy rule",
+         "Lockset consistency per field: all post-construction writes share a mutex in exclusive mode and every read holds it; fields written only during construction are immutable; a reviewed table names fields confined by hand-over. Two unlocked writers of MdnsManager.mdnsProvider are recorded known findings. Races only the dynamic detector can observe are not decided.",
+         "DESIGN.md §3 C20"),
+
  "C01": ("finite-domain abstract interpretation of package ship's SSA (handshake automaton extraction, all entries x 40 states x both roles) + who-may-call/guarded-by rules in package hub",
          "Inductive invariant over the extracted automaton: every transition from a pre-trust into a post-trust state is on a path that passed the positive edge of a trust predicate or is the user-approval step; setup callback only in state Approved; SPINE reader only from that callback, delivery only through it; hub sets trust only on registration or hello-ok and approves pending handshakes only from RegisterRemoteSKI. This is the universally quantified reachability clause (no message/timeout/error sequence advances an untrusted peer) decided on an over-approximation of the code; application callback logic is not decided.",
          "DESIGN.md §3 C01"),
@@ -41,11 +66,11 @@ CLAIMS = {
          "The metamorphic property rests on every SKI-keyed access and callback seeing the canonical form; that clause is decided for all public entry points through all hub helpers; construction sites use ServiceDetails.SKI(). Equality of all other effects is not decided.",
          "DESIGN.md §3 C15"),
 
- "C12": ("channel close/send discipline + escape-arm + must-pass path rules over go/ssa CFG of package ws",
-         "Structural necessary conditions of 'write vs. close never panics or hangs': no sent-to channel is closed by another goroutine, every enqueue is a select with an escape arm on a channel the close routine closes, closed flag read dominates the enqueue and only the enqueue path returns nil. The racing interleaving the property quantifies over exists exactly when one of these is broken; the prefix property at the peer is not decided.",
+ "C12": ("channel close/send discipline, escape-arm, must-pass path rules, interprocedural lock analysis (blocked-writer vs. close routine, serialised transport writes) over go/ssa of package ws",
+         "Structural necessary conditions of 'write vs. close never panics or hangs': no sent-to channel is closed by another goroutine, every enqueue is a select with an escape arm on a channel the close routine closes, closed flag read dominates the enqueue and only the enqueue path returns nil, the close routine never needs a lock a blocked writer holds, all transport writes hold one mutex. The racing interleaving the property quantifies over exists exactly when one of these is broken; the prefix property at the peer is not decided.",
          "DESIGN.md §3 C12"),
  "C13": ("must-pass-through / guarded-by / exactly-once path rules over go/ssa CFG of package ws and ship",
-         "Structural necessary conditions of 'transport loss is reported and releases goroutines and socket': the sync.Once close routine closes stop channel and socket on every path, every flag-setting site runs it, read-error path reports exactly once and leaves the loop, delivery is guarded by no-error and not-closed, write failure reaches ReportConnectionError, closed-query returns non-nil error when closed, pumps select on the stop channel, ship.ReportConnectionError always closes. Real termination timing is not decided.",
+         "Structural necessary conditions of 'transport loss is reported and releases goroutines and socket': the sync.Once close routine closes stop channel and socket on every path, every flag-setting site runs it, read-error path reports exactly once and leaves the loop, delivery is guarded by no-error and not-closed, write failure reaches ReportConnectionError, closed-query returns non-nil error when closed, pumps select on the stop channel, ship.ReportConnectionError always closes, write errors caused by a local close are not reported, the close routine is not blocked behind a writer's lock. Real termination timing is not decided.",
          "DESIGN.md §3 C13"),
 }
 NA = {}
